@@ -8,7 +8,7 @@ from hypothesis import strategies as st
 
 from vk.core import Facet
 from vk.sources import RecordingSource, ScriptedSource, Unbounded, enumerate_collect
-from vk.values import single_objective_values
+from vk.values import NUMBER_FORMS, single_objective_values
 
 LEVEL = "exploration"
 RULE = (
@@ -47,8 +47,11 @@ def judge_tournament(case, rec, source, exhaustive_tag):
     from geneticengine.evaluation.sequential import SequentialEvaluator
     from geneticengine.problems import SingleObjectiveProblem
 
+    from vk.values import as_form
+
     minimize = case["minimize"]
-    problem = SingleObjectiveProblem(lambda p: p[1][0], minimize=minimize)
+    nf = case.get("number_form")
+    problem = SingleObjectiveProblem(lambda p: as_form(p[1][0], nf), minimize=minimize)
     inds = mk_inds([[v] for v in case["values"]])
     if case.get("decoy"):
         # the same individuals were evaluated earlier under another problem (opposite direction)
@@ -104,7 +107,7 @@ class TournamentRecorded(Facet):
     def strategy(self, tier):
         return st.one_of(st.integers(1, 8), st.integers(1, 8 if tier == "quick" else 60)).flatmap(
             lambda n: st.builds(
-                lambda values, ts, repl, tgt, minimize, seed, decoy: {"values": values, "tsize": ts, "replacement": repl, "target": tgt, "minimize": minimize, "seed": seed, "decoy": decoy, "reused": seed % 2 == 1},
+                lambda values, ts, repl, tgt, minimize, seed, decoy: {"values": values, "tsize": ts, "replacement": repl, "target": tgt, "minimize": minimize, "seed": seed, "decoy": decoy, "reused": seed % 2 == 1, "number_form": NUMBER_FORMS[(seed // 2) % len(NUMBER_FORMS)]},
                 st.lists(single_objective_values(), min_size=n, max_size=n),
                 st.integers(1, n + 2),
                 st.booleans(),
@@ -238,7 +241,14 @@ def run_lexicase(case, source):
         # the same step object used before on another population
         warm = mk_inds([[x + 3 for x in v] for v in reversed(case["vectors"])])
         list(step.apply(problem, SequentialEvaluator(), TableRep(), RecordingSource(0), list(warm), 1, 0))
-    out = list(step.apply(problem, SequentialEvaluator(), TableRep(), source, list(inds), case["target"], 1))
+    pop = list(inds)
+    if case.get("seed", 0) % 3 == 0:
+        # the same step object was applied before to the very same list object, under another
+        # problem (other scores for the same individuals) that is still alive
+        other = MultiObjectiveProblem([not m for m in case["minimize"]], lambda p: [7 - x for x in reversed(p[1])])
+        list(step.apply(other, SequentialEvaluator(), TableRep(), RecordingSource(1), pop, 1, 0))
+        run_lexicase.keepalive = other
+    out = list(step.apply(problem, SequentialEvaluator(), TableRep(), source, pop, case["target"], 1))
     return inds, out
 
 
